@@ -85,6 +85,10 @@ MUTANTS = [
      "                except (OSError, ValueError):\n                    stream_ok = False\n", "                except ZeroDivisionError:\n                    stream_ok = False\n", ["C10"]),
     ("revert-D26-json-after-check", "execution/ops/run_task_executable.py",
      "        if self._serialize_args_options:\n", "        if self._serialize_args_options and handle.returncode == 0:\n", ["C10", "C06", "C08"]),
+    ("revert-D27-dangling-own-link", "execution/ops/combine_outputs.py",
+     "            if copy_into.is_symlink():\n", "            if copy_into.is_symlink() and copy_into.exists():\n", ["C18"]),
+    ("revert-D28-foreign-link", "execution/ops/combine_outputs.py",
+     "                if not _is_conductor_link(copy_into, dep_id, ctx):\n", "                if False:\n", ["C18"]),
     ("loader-no-dup-check", "parsing/task_index.py",
      "                    if dep_identifier in task_deps_set:\n", "                    if dep_identifier in task_deps_set and len(task_deps) > 2:\n", ["C14"]),
 ]
